@@ -8,7 +8,7 @@
 //! token grammar (schema-directed, fields in declaration order):
 //!   String/PathBuf  hex | -          number  decimal         bool  t | f        unit enum  variant index
 //!   Option<T>  N | S <T>             Vec<T>  L n <T>*n        HashMap<K,T>  M n (<hex> <T>)*n      (A,B)  <A> <B>
-//! result:  ok <canonical json> de=ok same=0|1   |   ok <canonical json> de=<error kind>[:<field hex>]   |   sererr
+//! result:  ok <canonical json> de=ok same=0|1 load=ok|differs|err   |   ok <canonical json> de=<error kind>[:<field hex>]   |   sererr
 use crate::util::*;
 use crate::wire::Cursor;
 use renamify_core::case_model::Style;
@@ -411,12 +411,35 @@ where
 /// plan.json exactly as the code writes it: `renamify_core::write_plan` into a scratch file
 fn plan_via_write_plan(p: &Plan) -> String {
     let dir = fresh("serde");
-    let path = dir.join("plan.json");
+    let rdir = dir.join(".renamify");
+    let _ = std::fs::create_dir_all(&rdir);
+    let path = rdir.join("plan.json");
     let res = renamify_core::write_plan(p, &path);
     let out = match res {
         Err(_) => "sererr".to_string(),
         Ok(()) => match std::fs::read_to_string(&path) {
-            Ok(text) => judge_text(p, &text),
+            Ok(text) => {
+                let mut line = judge_text(p, &text);
+                // … and through the code's own in-process loader of plan.json that has no side effect: status
+                let load = match renamify_core::status_operation(Some(&dir)) {
+                    Ok(st) => match st.pending_plan {
+                        Some(pp)
+                            if pp.id == p.id
+                                && pp.search == p.search
+                                && pp.replace == p.replace
+                                && pp.created_at == p.created_at =>
+                        {
+                            "ok"
+                        },
+                        _ => "differs",
+                    },
+                    Err(_) => "err",
+                };
+                if line.contains(" de=ok") {
+                    line.push_str(&format!(" load={load}"));
+                }
+                line
+            },
             Err(_) => "notjson".to_string(),
         },
     };
@@ -433,7 +456,25 @@ fn history_via_save(h: &HistoryEntry) -> String {
             return "sererr".into();
         }
         match std::fs::read_to_string(dir.join("history.json")) {
-            Ok(text) => judge_text(&vec![h.clone()], &text),
+            Ok(text) => {
+                let mut line = judge_text(&vec![h.clone()], &text);
+                // … and through the code's own loader
+                let load = match renamify_core::history::History::load(&dir) {
+                    Ok(back) => {
+                        let es = back.list_entries(None);
+                        if es.len() == 1 && es[0].same_value(h) {
+                            "ok"
+                        } else {
+                            "differs"
+                        }
+                    },
+                    Err(_) => "err",
+                };
+                if line.contains(" de=ok") {
+                    line.push_str(&format!(" load={load}"));
+                }
+                line
+            },
             Err(_) => "notjson".into(),
         }
     })();
